@@ -19,6 +19,12 @@ def main(argv):
         print(__doc__)
         return 2
     os.environ.setdefault("PYTHONHASHSEED", "0")
+    # local time zone of the recording/reading processes: deliberately not UTC (POSIX TZ string, no tzdata
+    # needed); every name and time in the format is defined in UTC and must not depend on it
+    os.environ["TZ"] = os.environ.get("DRFVERIF_TZ", "IST-5:30")
+    import time as _time
+
+    _time.tzset()
     if not os.environ.get("DRFVERIF_DEBUG"):
         # the C library and HDF5 report expected rejections on the C-level stderr: silence fd 2,
         # keep Python's sys.stderr on a duplicate of the original descriptor
